@@ -663,6 +663,7 @@ def check_c02(tier, seed, res):
                       "agree", rows)
     # frame after frame on one connection
     streams = gen_cases("c02stream", seed, 200 if tier == "quick" else 5000, tier)
+    streams += gen_cases("c02short", seed, 0, tier).replace("stream ", "stream s")
     model, impl = differential(streams, wd("C02"), "stream")
     for k, line in case_map(streams).items():
         res.evaluations += 1
@@ -767,10 +768,27 @@ def check_c14(tier, seed, res):
                     res.violation("behera-more-than-one", line, i, m, "more than one of grace/expire/error set"); continue
             if i != m:
                 res.mismatch(line, i, m)
+    # request direction: two or more controls on one message, every order
+    rcases = gen_cases("c14req", seed, 300 if tier == "quick" else 20000, tier)
+    table = stage_requests(rcases, wd("C14"), "req")
+    for i, line in {l.split(" ", 2)[1]: l for l in rcases.splitlines() if l}.items():
+        res.evaluations += 1
+        e = table.get(i, {})
+        kind = line.split(" ")[2]
+        dist["req-" + kind] = dist.get("req-" + kind, 0) + 1
+        res.nontrivial.add(line.split(" ", 2)[2])
+        if "impl" not in e:
+            res.mismatch(line, str(e.get("impl")), str(e.get("error", e.get("model")))); continue
+        if e["impl"] != e["spec"]:
+            res.violation("ctl-list:" + kind, line, e["impl"], e["spec"], "the controls the handler sees differ from the controls the client put on the message")
+        elif e["impl"] != e["model"]:
+            res.mismatch(line, e["impl"], e["model"])
     res.extra["distribution"] = dist
     res.rule = ("seeded typed controls of all 9 kinds (page sizes 0..2^32-1 boundaries, cookies of any length, int64 boundary expiry/grace, "
                 "errors 0..8, arbitrary OIDs/values/criticality) through the real constructors, Encode and decodeControl, compared byte-exact "
                 "with the model's encoding and with the typed fields; Behera constructor over the product of 12 boundary values per option; "
+                "requests of the five control-carrying operations with 2..6 controls in every order (a control without criticality or value "
+                "behind one that has them, and the reverse) through the real request decoder, compared with what the client encoded; "
                 "distinct = distinct case text, all non-trivial")
 
 
@@ -990,12 +1008,47 @@ def check_c03(tier, seed, res):
             res.mismatch(line, i, m)
         elif res.evaluations % 9001 == 1:
             res.sample(line[:220] + "  =>  " + i[:100])
+    # histories: registrations and served requests in any order on one Mux
+    seqs = gen_cases("c03seq", seed, 300 if tier == "quick" else 20000, tier)
+    model, impl = differential(seqs, wd("C03"), "seq")
+    for k, line in case_map(seqs).items():
+        res.evaluations += 1
+        i = impl.get(k); m = model.get(k)
+        if i is None or m is None or i.startswith("HARNESS") or m.startswith("DRIVER"):
+            res.mismatch(line, str(i), str(m)); continue
+        res.nontrivial.add(line.split(" ", 2)[2])
+        toks = line.split(" ")[3:]
+        events = []
+        for tk in toks:
+            if tk in ("reg", "req"):
+                events.append([tk])
+            else:
+                events[-1].append(tk)
+        regs = []; wants = []
+        for ev in events:
+            if ev[0] == "reg":
+                regs.append(ev[1:])
+            else:
+                wants.append(c03_expect(" ".join(["serve", "x", str(len(regs))] + [x for r in regs for x in r] + ev[1:])))
+        got = i.split(" ; ") if i else []
+        bad = len(got) != len(wants)
+        for w, g_ in zip(wants, got):
+            if w is not None and not ((g_ == w) if w.startswith("RUN") else g_.startswith(w)):
+                bad = True
+        dist["history"] = dist.get("history", 0) + 1
+        if bad:
+            res.violation("dispatch-history", line, i, " ; ".join(str(w) for w in wants),
+                          "a request served after a registration call is not answered by the routes registered before it (first match / default / refusal)")
+        elif i != m:
+            res.mismatch(line, i, m)
     res.extra["distribution"] = dist
     res.exhaustive = True
     res.rule = ("route tables over the 43-route alphabet (bind, modify, add, delete, 3 extended names, search with base in {none,dc=a,DC=A,dc=b} x filter in "
                 "{none,(cn=x),(CN=X)} x scope in {0,1,2}) x default in {none, set, set twice} x 53 requests: exhaustive for tables of length <= 1, for length 2 "
                 "exhaustive over routes of the request's own kind (all kinds in the thorough tier), random tables up to length 8 (32 thorough) with nil handlers "
-                "and unbind routes; real Mux registration methods and (*Mux).serve; expectation computed from the case text by check.py; distinct = distinct case text")
+                "and unbind routes; histories on ONE Mux that serve a request, register a route or default that changes its answer and serve it again "
+                "(systematic over request x route of its kind, and random histories of 4..13 events); "
+                "real Mux registration methods and (*Mux).serve; expectation computed from the case text by check.py; distinct = distinct case text")
 
 
 # --------------------------------------------------------------------------
